@@ -2,6 +2,7 @@ import Eliot.Model.File
 import Eliot.Proofs.FileCrash
 import Eliot.Proofs.FileDest
 import Eliot.Properties.C09
+import Eliot.Properties.C09Flat
 import Eliot.Generated.FileDest
 /-! # C11 — a crash loses no acknowledged message and leaves a parseable log
 
@@ -114,5 +115,24 @@ theorem crash_parse {ts : Spec} (hwf : ts.WF) (payloads css : List (List Nat)) (
   obtain ⟨t, ht, _, _, hc⟩ := hok.sound u T hT
   refine ⟨t, ht, hc.trans ?_⟩
   simp [allArrived, arrived]
+
+open PM PM.C09 in
+/-- `crash_parse` for the parser as the code runs it (flat `_nodes` tasks, `Properties/C09Flat.lean`): what is on disk
+after a crash at any instant parses without error with the flat algorithm too, to tasks that mirror the trie parser's one by one
+(same uuids, same `root()`, same `is_complete()`); in particular none is reported complete unless all its messages are on disk. -/
+theorem crash_parse_flat {ts : Spec} (hwf : ts.WF) (payloads css : List (List Nat)) (k : Nat) (f : List Nat → PMsg)
+    (hnl : ∀ p ∈ payloads, 10 ∉ p) (hnd : (payloads.map f).Nodup) (hin : ∀ m ∈ payloads.map f, m ∈ ts.msgs) :
+    ∃ out fout, parseStream ((readLines (crash k (logAll (payloads.map (· ++ [10])) css)).disk).map f) = .ok out
+      ∧ fparseStream ((readLines (crash k (logAll (payloads.map (· ++ [10])) css)).disk).map f) = .ok fout
+      ∧ PInv fout out
+      ∧ fout.map (·.2.isComplete) = out.map (·.2.isComplete) ∧ fout.map (·.2.root) = out.map (·.2.root) := by
+  obtain ⟨a, _, _, hr⟩ := EJ.crash_readable payloads css k hnl
+  have hmap : (readLines (crash k (logAll (payloads.map (· ++ [10])) css)).disk).map f = (payloads.map f).take a := by
+    rw [hr, List.map_take]
+  have hnd' : ((payloads.map f).take a).Nodup := (List.take_sublist a _).nodup hnd
+  have hin' : ∀ m ∈ (payloads.map f).take a, m ∈ ts.msgs := fun m hm => hin m (List.mem_of_mem_take hm)
+  obtain ⟨out, fout, h1, h2, h3⟩ := PM.C09Flat.flat_parse_stream_follows_spec hwf _ hnd' hin'
+  have hg := PM.C09Flat.PInv.get h3
+  exact ⟨out, fout, by rw [hmap]; exact h1, by rw [hmap]; exact h2, h3, hg.2.2, hg.2.1⟩
 
 end EJ.C11
